@@ -12,7 +12,7 @@ SPEC = {
     "rule": ("A case is one guarded call of equihash::is_valid_solution. Sources: (1) valid solutions found by the harness's own "
              "Wagner solver for 23 parameter sets (index widths 9..21 and 25 bits: (48,5),(32,3),(40,4),(56,6),(40,3),(88,7),(72,5),(48,3),"
              "(104,7),(56,3),(112,7),(120,7),(96,5),(128,7),(64,3),(160,9),(144,8),(80,4),(112,6),(136,7),(72,3),(144,7),(96,3); "
-             "thorough also (152,7),(80,3),(120,5),(160,7),(200,9),(272,16),(88,3),(168,7)) on random inputs/nonces of varied lengths, plus the crate's valid/invalid index "
+             "thorough also (152,7),(80,3),(120,5),(160,7),(200,9),(88,3),(168,7),(264,11)) on random inputs/nonces of varied lengths, plus the crate's valid/invalid index "
              "vectors and the mainnet header shipped in zcash_primitives; (2) every (or, above a cap, a random sample of) single-bit "
              "flip of solution, input and nonce; (3) index-level mutations re-encoded to minimal form: sibling swap at every level, "
              "cousin swap (+re-canonicalised), duplicated index, doubled blocks at every level, substitution of an index by one that "
@@ -34,7 +34,7 @@ SPEC = {
     ],
     "tiers": {
         "quick": {"shards": 12, "budget_s": 35, "extra": {"heavy-shards": 1}},
-        "thorough": {"shards": 16, "budget_s": 420, "extra": {"heavy-shards": 3}},
+        "thorough": {"shards": 16, "budget_s": 420, "extra": {"heavy-shards": 3, "heavy2-shards": 2}},
     },
     "floors": {
         "quick": {
@@ -61,7 +61,7 @@ SPEC = {
             "evaluations": 5_000_000, "distinct_nontrivial": 400,
             "grid_points": 33_000, "grid_shards_completed": 16, "grid_valid_param_pairs": 500,
             "solver_solutions": 3000, "valid_vector": 46, "valid_header": 1,
-            "valid_n48_k5": 1000, "valid_n96_k5": 200, "valid_n200_k9": 9, "valid_n96_k3": 2, "valid_n272_k16": 1,
+            "valid_n48_k5": 1000, "valid_n96_k5": 200, "valid_n200_k9": 9, "valid_n96_k3": 2, "valid_n264_k11": 1,
             "bitflips_soln": 500_000, "bitflips_input": 500_000, "bitflips_nonce": 500_000,
             "judged_mut-swap-siblings": 10_000, "judged_mut-doubled-blocks": 10_000, "judged_mut-chunk-collider": 8000,
             "judged_mut-subtree-substitute": 4000, "judged_near-solution": 3000,
